@@ -64,6 +64,25 @@ fn ranges(glyphs: &[u16]) -> Vec<(u16, u16, u16)> {
     out
 }
 
+/// 32-bit query ids for a 16-bit glyph set: every glyph of the set and its neighbours with the
+/// high half set to 0x0001 and 0xFFFF, 0x1_0000 + first/last of every range, and u32::MAX
+fn wide_queries(glyphs: &[u16]) -> Vec<u32> {
+    let mut q = BTreeSet::new();
+    for g in glyphs {
+        for n in [g.saturating_sub(1), *g, g.saturating_add(1)] {
+            q.insert(0x1_0000 | n as u32);
+            q.insert(0xFFFF_0000 | n as u32);
+        }
+    }
+    for (s, e, _) in ranges(glyphs) {
+        q.insert(0x1_0000 + s as u32);
+        q.insert(0x1_0000 + e as u32);
+    }
+    q.insert(u32::MAX);
+    q.insert(0x1_0000);
+    q.into_iter().collect()
+}
+
 fn coverage_case(run: &Run, mask: u32, mode: u8, l: &mut Local) {
     let glyphs: Vec<u16> = (0..10).filter(|i| mask & (1 << i) != 0).map(|i| G10[i]).collect();
     let case = json!({"family":"coverage","mask":mask,"mode":mode});
@@ -133,6 +152,17 @@ fn coverage_case(run: &Run, mask: u32, mode: u8, l: &mut Local) {
             run.violation(
                 &format!("{name}: coverage index differs (format {fmt})"),
                 &format!("glyphs {glyphs:?}: get({g}) = {got:?}, want {want:?}"),
+                case,
+            );
+            return;
+        }
+    }
+    // 32-bit glyph ids can never be covered by a 16-bit coverage table, whatever their low 16 bits
+    for q in wide_queries(&glyphs) {
+        if let Some(ix) = read.get(read_fonts::types::GlyphId::new(q)) {
+            run.violation(
+                &format!("{name}: a glyph id above 0xFFFF is reported as covered (format {fmt})"),
+                &format!("glyphs {glyphs:?}: get({q:#x}) = Some({ix})"),
                 case,
             );
             return;
@@ -234,6 +264,7 @@ fn classdef_case(run: &Run, assign: &[(u16, u16)], mode: u8, l: &mut Local) {
             return;
         }
     }
+    // (ClassDef::get takes GlyphId16 only, so there is no 32-bit query to make here)
     let mut h = Fnv::new();
     h.str("cd");
     h.u64(fmt);
